@@ -63,8 +63,11 @@ STATEMENT_STATUS: Dict[str, str] = {
     "C09_neighbour_iff": "proved: find_neighbors through the grid index = documented relation (line_margin >= 0, "
                          "non-empty lines, well-formed page; uses C20 plane_find)",
     "C09_no_neighbour_if_negative": "proved",
-    "C09_column_order_partial": "partial: sort-key inequalities only; that a column is merged before the columns are "
-                                "joined is tested on generated layouts, not proved",
+    "C09_column_order_partial": "partial (numeric boxes_flow): sort-key inequalities only; that a column is merged before the "
+                                "columns are joined is tested on generated layouts, not proved",
+    "C09_order_none": "proved (full): with boxes_flow=None the boxes come out sorted by the positional key - a column top to "
+                      "bottom, equal bottoms left to right, vertical boxes first",
+    "C09_order_none_top_to_bottom": "proved",
     "C09_scale_predicates": "proved (all predicates/measures homogeneous, any s > 0)",
     "C09_scale_lines": "proved: group_objects, word spaces and the empty-line split commute with scaling",
     "C09_scale_neighbours": "proved: the neighbour relation (as a set, through the grid index) is the same at every scale",
